@@ -138,6 +138,19 @@ def handle (j : Json) : IO Unit := do
   match jstr (jget j "kind") with
   | "pure" => handlePure case j
   | "stack" => handleStack case j
+  | "xroute" =>
+    -- Anthropic translation route, the preferred endpoint refuses, the other one works: by C04_transparent the
+    -- request is served by the working endpoint (one attempt there), and the refusing one is taken out of rotation
+    let impl := jget j "impl"
+    if jstr (jget impl "start_err") != "" then
+      emit case false true "start-error" "" (jstr (jget impl "start_err"))
+    else
+      let reqs := jarr (jget impl "reqs")
+      let served := reqs.all (fun r => jnat (jget r "status") == 200 && jstr (jget r "err") == "" && jnat (jget r "working_backend_requests") == 1)
+      let marked := reqs.all (fun r => jbool (jget r "offline_after"))
+      emit case (served && marked) (served && marked) s!"xroute.anthropic-translation.{jstr (jget j "engine")}"
+        (if !served then "reachable-backend-but-request-failed" else if !marked then "failed-endpoint-not-marked-offline" else "")
+        (if served && marked then "" else s!"types {(jget j "types").compress}, passthrough disabled, endpoint A refuses, B works: {(jget impl "reqs").compress}")
   | k => emit case false true "unknown-kind" "" k
 
 def main : IO Unit := do forLines (← IO.getStdin) handle
